@@ -216,6 +216,10 @@ def _f_df(case, ref, est):
 
 @reg("file_interface writers")
 def _f_writers(case, ref, est):
+    if case["misc"].get("no_est_name") and ref.mode == "pq":
+        # quaternions that are unit only to text-file precision (valid by evo's own check())
+        f = np.asarray(([3e-7, -8e-7, 0.0, 5e-6] * ref.n)[: ref.n])
+        ref = trajgen.Real(ref.P, ref.Rs(), "pq", ref.T, Q=ref.Q * (1.0 + f)[:, None])
     ro = ref.build(case["ref"]["pre"], timed=True)
     po = est.build(case["est"]["pre"], timed=False)
     rs = _mk_results(case, ref, est)[0]
@@ -269,7 +273,11 @@ def sub_plots(case):
     try:
         ax = plot.prepare_axis(fig, mode)
         plot.traj(ax, mode, ro, plot_start_end_markers=True)
-        plot.traj_colormap(ax, eo, err, mode, min_map=float(err.min()), max_map=float(err.max()))
+        # colour-map bounds inside the data range (as --plot_colormap_min/max/_max_percentile give them) or at its ends
+        lo, hi = float(err.min()), float(err.max())
+        if case["misc"].get("uneven"):
+            lo, hi = lo + 0.25 * (hi - lo), hi - 0.25 * (hi - lo)
+        plot.traj_colormap(ax, eo, err, mode, min_map=lo, max_map=hi)
         plot.draw_coordinate_axes(ax, eo, mode, 0.1)
         plot.draw_correspondence_edges(ax, eo, ro, mode)
         fig2, axarr = plt.subplots(3)
